@@ -146,7 +146,7 @@ def model_skeletons() -> dict[str, dict]:
             "Other": obj({"other-id": STR, "baseOpt": STR}, ["other-id", "baseOpt"]),
             "InlineOnly": {"allOf": [obj({"in-a": INT}, ["in-a"]), obj({"inB": STR})]},
             "ReqOnly": {"allOf": [obj({"ro-a": INT, "roB": STR}), {"required": ["ro-a"]}]},
-            "ReqOfParent": {"allOf": [ref("Base"), {"required": ["baseOpt"]}]},
+            "ReqOfParent": {"allOf": [ref("Base"), {"required": ["baseOpt", "shared"]}]},
             "OwnProps": {"allOf": [ref("Other")], "properties": {"own-p": INT, "ownQ": STR}, "required": ["ownQ"]},
             # the member that requires the property gives it the broader type, a later member narrows it without repeating `required`
             "ReqBase": obj({"amount": NUM, "unit": STR, "when": STR}, ["amount", "when"]),
